@@ -215,6 +215,8 @@ def build(case):
             p = _pick_day(n, ug, tg)
             med, q1, q3 = np.median(uvals), np.quantile(uvals, 0.25), np.quantile(uvals, 0.75)
             v[p] = -5.0 if defect == "negative" else med + 10 * (q3 - q1)
+        if defect == "zeros":  # gas only: a zero reading is a measured value, not a missing one (e.g. no gas use in summer)
+            v[n // 3: n // 3 + max(2, n // 6)] = 0.0
         v[ug] = np.nan
         meter = pd.Series(v, index=days, name="observed")
     elif kind == "billing":
@@ -245,6 +247,8 @@ def build(case):
             pos = int(np.flatnonzero((dnum == p) & (hr == 12))[0])
             med, q1, q3 = np.median(v), np.quantile(v, 0.25), np.quantile(v, 0.75)
             v[pos] = -0.5 if defect == "negative" else med + 10 * (q3 - q1)
+        if defect == "zeros":
+            v[(dnum >= n // 3) & (dnum < n // 3 + max(2, n // 6))] = 0.0
         v[np.isin(dnum, ug)] = np.nan
         if hours and hours.get("usage"):
             v[hours["usage"]] = np.nan
@@ -476,7 +480,7 @@ def value_cases(tier):
         spans = [329, 365, 366] if tier == "quick" else SPANS
         for role in ROLES:
             for fuel in ("electric", "gas"):
-                for defect in defects:
+                for defect in defects + (["zeros"] if (fuel == "gas" and kind != "billing") else []):
                     for entry, feed in entry_feed_pairs(kind, tier):
                         for n in spans:
                             f = n // 10
